@@ -19,6 +19,8 @@ use std::collections::{BTreeMap, HashMap, VecDeque};
 use roto::{NoCtx, Package, Runtime, TypedFunc, Val, library};
 use vcore::{Cfg, Check, Cx, Finding, Meta, SUB_SETUP, Tier, Value, Violation, json};
 
+mod indep;
+
 const MAX_PKGS: usize = 2;
 const MAX_HANDLES: usize = 3;
 const CHUNK: usize = 40;
@@ -553,6 +555,75 @@ fn fork_try(f: impl FnOnce()) -> Option<i32> {
     }
 }
 
+const INDEP_CHUNK: usize = 8;
+
+fn indep_pool(tier: Tier) -> usize {
+    tier.pick(16, 24)
+}
+
+fn history_json(h: &indep::History) -> Value {
+    match &h.earlier {
+        None => json!({"part": "independence", "earlier": "nothing", "subject": indep::subject(&h.names)}),
+        Some((order, role, kept)) => json!({"part": "independence", "earlier_package": indep::unrelated(&h.names, order, *role), "role": format!("{role:?}"),
+            "earlier_package_kept_alive": kept, "subject": indep::subject(&h.names)}),
+    }
+}
+
+/// Part B (see indep.rs): the subject's constants after every earlier history of the process
+fn run_independence(chunk: usize, cx: &mut Cx) {
+    let pool = indep_pool(cx.cfg.tier);
+    let n_pairs = indep::pairs(pool).len();
+    for pair in chunk * INDEP_CHUNK..((chunk + 1) * INDEP_CHUNK).min(n_pairs) {
+        let hs = indep::histories(pool, pair);
+        let mut baseline: Option<String> = None;
+        let mut seen = std::collections::BTreeSet::new();
+        for (i, h) in hs.iter().enumerate() {
+            let sub = (((pair - chunk * INDEP_CHUNK) as u64) << 8) | i as u64;
+            if !cx.case(sub) {
+                continue;
+            }
+            // a replay runs one history only: it still needs the empty history to compare with
+            if baseline.is_none() && h.earlier.is_some() {
+                baseline = indep::run(&hs[0]).ok();
+            }
+            let r = indep::run(h);
+            cx.transitions(1);
+            cx.validated(1);
+            cx.states(1);
+            cx.count("independence_histories", 1);
+            match r {
+                Err(sig) => cx.violation("independence-died", sub, history_json(h), json!("the subject compiles and runs"), json!({"signal": sig})),
+                Ok(obs) => {
+                    cx.outcome(vcore::util::fnv_str(&format!("indep:{obs}")));
+                    seen.insert(obs.clone());
+                    if !obs.starts_with("initialisers_run=2 ") {
+                        cx.violation("independence-broken-run", sub, history_json(h), json!("2 initialisers run, 2 values read"), json!(obs));
+                        continue;
+                    }
+                    match &baseline {
+                        None if h.earlier.is_none() => {
+                            if pair % INDEP_CHUNK == 0 {
+                                cx.sample(json!({"part": "independence", "subject": indep::subject(&h.names), "alone": obs, "histories": hs.len()}));
+                            }
+                            baseline = Some(obs);
+                        }
+                        None => {}
+                        Some(b) => {
+                            cx.nontrivial(vcore::util::fnv_str(&format!("{:?}{i}", h.names)));
+                            if *b != obs {
+                                cx.violation("constants-depend-on-earlier-package", sub, history_json(h), json!({"compiled_alone": b}), json!({"after_the_earlier_package": obs}));
+                            }
+                        }
+                    }
+                }
+            }
+        }
+        if seen.len() > 1 {
+            cx.count("independence_pairs_with_differing_values", 1);
+        }
+    }
+}
+
 struct C11;
 
 impl Check for C11 {
@@ -560,7 +631,7 @@ impl Check for C11 {
         "C11"
     }
     fn units(&self, cfg: &Cfg) -> usize {
-        cached(cfg.tier).0.len().div_ceil(CHUNK)
+        cached(cfg.tier).0.len().div_ceil(CHUNK) + indep::pairs(indep_pool(cfg.tier)).len().div_ceil(INDEP_CHUNK)
     }
     fn case_timeout_s(&self, cfg: &Cfg) -> f64 {
         cfg.tier.pick(60.0, 300.0)
@@ -568,6 +639,9 @@ impl Check for C11 {
     fn run_unit(&self, unit: usize, cx: &mut Cx) {
         cx.case(SUB_SETUP);
         let (all, n_states) = cached(cx.cfg.tier);
+        if unit >= all.len().div_ceil(CHUNK) {
+            return run_independence(unit - all.len().div_ceil(CHUNK), cx);
+        }
         if unit == 0 {
             cx.count("model_states", *n_states as u64);
         }
@@ -616,6 +690,13 @@ impl Check for C11 {
             return json!({"phase": "setup"});
         }
         let (all, _) = cached(cfg.tier);
+        if unit >= all.len().div_ceil(CHUNK) {
+            let pair = (unit - all.len().div_ceil(CHUNK)) * INDEP_CHUNK + (sub >> 8) as usize;
+            if pair >= indep::pairs(indep_pool(cfg.tier)).len() {
+                return json!(null);
+            }
+            return indep::histories(indep_pool(cfg.tier), pair).get((sub & 0xff) as usize).map(history_json).unwrap_or(json!(null));
+        }
         match all.get(unit * CHUNK + sub as usize) {
             Some((hist, op)) => json!({"history": hist.iter().map(|o| format!("{o:?}")).collect::<Vec<_>>(), "op": format!("{op:?}")}),
             None => json!(null),
@@ -647,5 +728,14 @@ impl Check for C11 {
 }
 
 fn main() {
+    // triage aid: `c11 --indep-dump` prints what every Part B history observes
+    if std::env::args().any(|a| a == "--indep-dump") {
+        for pair in 0..indep::pairs(24).len() {
+            for h in indep::histories(24, pair) {
+                println!("{:?} {:?} -> {:?}", h.names, h.earlier, indep::run(&h));
+            }
+        }
+        return;
+    }
     vcore::main(&C11)
 }
